@@ -278,6 +278,9 @@ impl Log {
 fn v<T: Serialize>(t: &T) -> Value {
 	serde_json::to_value(t).expect("harness: value serialises")
 }
+/// `send_timeout` attempts of `Subs::items` (mode 3) that ran into their time limit and were repeated
+static SEND_TIMEOUTS: std::sync::atomic::AtomicU64 = std::sync::atomic::AtomicU64::new(0);
+
 fn raw<T: Serialize>(t: &T) -> Box<RawValue> {
 	serde_json::value::to_raw_value(t).expect("harness: value serialises")
 }
@@ -533,7 +536,23 @@ impl SubsServer for Srv {
 		}
 		let sink = pending.accept().await?;
 		for seq in 0..count as u32 {
-			let _ = sink.send(raw(&ret::item(self.salt, nonce, seq, &payload))).await;
+			let item = raw(&ret::item(self.salt, nonce, seq, &payload));
+			if mode == 3 {
+				// a handler that bounds each attempt and tries again with what the error hands back
+				let mut msg: jsonrpsee::SubscriptionMessage = item.into();
+				loop {
+					match sink.send_timeout(msg, Duration::from_millis(2)).await {
+						Ok(()) => break,
+						Err(jsonrpsee::core::server::SendTimeoutError::Timeout(m)) => {
+							SEND_TIMEOUTS.fetch_add(1, std::sync::atomic::Ordering::Relaxed);
+							msg = m;
+						}
+						Err(jsonrpsee::core::server::SendTimeoutError::Closed(_)) => break,
+					}
+				}
+			} else {
+				let _ = sink.send(item).await;
+			}
 		}
 		sink.closed().await;
 		self.log.closed(nonce);
@@ -1512,6 +1531,84 @@ async fn peer_sub(env: &Env, md: &MD, case: &Case) -> Result<Obs, String> {
 	Ok(Obs::Sub(o))
 }
 
+/// Directed family: the items of a macro-declared subscription reach a consumer that does not read for a while. The
+/// handler (mode 3) bounds every send with `send_timeout` and sends again what the error gives back; the connection's
+/// message buffer and the pipe are small, so attempts run into the limit. Every item the consumer eventually reads must be
+/// the value the handler produced, in order, under the declared notification name.
+async fn slow_consumer_case(seed: u64) -> Result<(Vec<Violation>, u64, u64), String> {
+	let mut r = Rng::new(seed);
+	let salt = r.next_u64() | 1;
+	let log = Arc::new(Log::default());
+	let module = build_module(&Srv { log: log.clone(), salt });
+	let mut srv = MemServer::new(ServerConfig::builder().set_message_buffer_capacity(1 + r.below(2) as u32).build(), module);
+	srv.duplex_capacity = 256 + r.usize(512);
+	let mut peer = srv.ws().await.map_err(|e| format!("peer handshake: {e:?}"))?;
+	let nonce = r.next_u64() >> 12;
+	let count = 3 + r.below(6) as u8;
+	let payload = g_rec(&mut r, 2);
+	let args = vec![v(&nonce), v(&count), v(&payload), v(&3u8)];
+	let before = SEND_TIMEOUTS.load(std::sync::atomic::Ordering::Relaxed);
+	let msg = format!("{{\"jsonrpc\":\"2.0\",\"id\":1,\"method\":\"sub_subscribeItems\",\"params\":{}}}", Value::Array(args.clone()));
+	peer.send_text(&msg).await?;
+	peer.set_reading(false);
+	tokio::time::sleep(Duration::from_millis(5 + r.below(40))).await;
+	peer.set_reading(true);
+	let Want::Items(want) = expected("Subs::items", salt, &args) else { unreachable!() };
+	let mut sub_id = Value::Null;
+	let mut got: Vec<Value> = Vec::new();
+	let mut names = Vec::new();
+	let mut have_response = false;
+	let mut short = None;
+	while !have_response || got.len() < want.len() {
+		match peer.recv(QUIESCENCE).await {
+			Recv::Frame(f) => {
+				let j = f.json().ok_or_else(|| format!("peer: frame is not JSON: {}", f.text()))?;
+				if j.get("id") == Some(&json!(1)) {
+					have_response = true;
+					sub_id = j["result"].clone();
+				} else {
+					names.push(j["method"].as_str().unwrap_or("").to_string());
+					if j["params"]["subscription"] != sub_id {
+						got.push(json!({"notification for another subscription": j}));
+					} else {
+						got.push(j["params"]["result"].clone());
+					}
+				}
+			}
+			Recv::Idle => {
+				short = Some("no further frame although the runtime went idle");
+				break;
+			}
+			Recv::Closed(_) => {
+				short = Some("connection closed");
+				break;
+			}
+		}
+	}
+	let timeouts = SEND_TIMEOUTS.load(std::sync::atomic::Ordering::Relaxed) - before;
+	let mut violations = Vec::new();
+	let witness = json!({"scenario": "slow consumer", "seed": seed, "count": count, "send_timeouts_during_case": timeouts});
+	if got != want {
+		let first = got.iter().zip(want.iter()).position(|(g, w)| g != w).unwrap_or(got.len().min(want.len()));
+		violations.push(Violation::new(
+			"items-differ/slow-consumer/send_timeout-then-resend",
+			format!(
+				"subscription Subs::items (mode 3: send_timeout, re-send on timeout), consumer paused: {} item(s) read, {} produced{}; first difference at index {first}: read {} produced {}",
+				got.len(),
+				want.len(),
+				short.map(|s| format!(" ({s})")).unwrap_or_default(),
+				got.get(first).map(|g| g.to_string()).unwrap_or("nothing".into()),
+				want.get(first).map(|g| g.to_string()).unwrap_or("nothing".into()),
+			),
+			witness.clone(),
+		));
+	} else if names.iter().any(|n| n != "sub_itemsNotif") {
+		violations.push(Violation::new("notification-name-wrong/slow-consumer", format!("notification names {names:?}, declared sub_itemsNotif"), witness));
+	}
+	peer.close().await;
+	Ok((violations, got.len() as u64, timeouts))
+}
+
 // ---------------------------------------------------------------------------------------------------------------
 // Oracle.
 
@@ -1862,9 +1959,25 @@ fn main() {
 	ev.assume("by-name keys in the alternative (snake/camel) spelling may be refused with -32602 without that counting as a violation; if accepted the values must be equal");
 	ev.assume("virtual time: a 120 s timeout firing means the runtime was idle, i.e. the awaited operation can never complete; the clients' real-time request timeout is 1 h");
 	let mut violations = Vec::new();
+	let mut slow_errors: Vec<String> = Vec::new();
 
 	if let Some(path) = &ctx.replay {
 		let w: Value = serde_json::from_str(&std::fs::read_to_string(path).expect("replay file")).expect("json");
+		if w["witness"]["scenario"] == "slow consumer" {
+			let s = w["witness"]["seed"].as_u64().expect("seed");
+			match block_on_virtual(slow_consumer_case(s)) {
+				Ok((v, items, timeouts)) => {
+					ev.eval();
+					println!("replay: slow consumer seed {s}: {items} items read, {timeouts} send_timeout attempts repeated, {} violation(s)", v.len());
+					for x in &v {
+						println!("replay violation: {} — {}", x.signature, x.detail);
+					}
+					violations.extend(v);
+					finish(&ctx, ev, violations, None);
+				}
+				Err(e) => finish(&ctx, ev, violations, Some(format!("harness error during replay: {e}"))),
+			}
+		}
 		let case: Case = serde_json::from_value(w["witness"]["case"].clone()).expect("witness.case");
 		let salt = w["witness"]["salt"].as_u64().unwrap_or(1);
 		println!("replaying {} via {}/{} name={:?} enc={} params={:?}", case.tag, case.path, case.via, case.name, case.enc, method(&case.tag).and_then(|m| params_text(m, &case)));
@@ -1890,10 +2003,33 @@ fn main() {
 		}
 	}
 
+	{
+		let n = ctx.tier.pick(if cfg!(miri) { 2u64 } else { 400 }, 20_000);
+		let seed = ctx.seed;
+		let res = run_parallel((0..n).collect(), |_, i| {
+			let s = Rng::fork(seed, 77_000_000 + i).next_u64();
+			(s, block_on_virtual(slow_consumer_case(s)))
+		});
+		for (s, r) in res {
+			match r {
+				Ok((v, items, timeouts)) => {
+					ev.eval();
+					ev.count("cases_slow_consumer", 1);
+					ev.count("slow_consumer_items_read", items);
+					ev.count("slow_consumer_send_timeouts_then_resent", timeouts);
+					if v.is_empty() && items > 0 {
+						ev.nontrivial(&("slow-consumer", s));
+					}
+					violations.extend(v);
+				}
+				Err(e) => slow_errors.push(e),
+			}
+		}
+	}
 	let total: u64 = ctx.tier.pick(16_000, 320_000);
 	let shards = 16u64;
 	let results = run_parallel((0..shards).collect(), |_, s| run_shard(ctx.seed, s, total / shards));
-	let mut harness_errors = Vec::new();
+	let mut harness_errors = slow_errors;
 	for r in results {
 		ev.merge(r.ev);
 		violations.extend(r.violations);
